@@ -126,12 +126,18 @@ theorem workIn_stepReqName (w : World) (u : Univ) (hu : ClosedU w u) (s : State)
         subst ht
         exact hf p (find?_mem' _ _ _ hfp)
       · split
-        · exact h
-        · refine workIn_append h ((w.mod m).stars.map fun x => Task.reqName x n) ?_ _ rfl
+        · rename_i x hsp
+          refine workIn_append h [.reqName x n] ?_ _ rfl
           intro t ht
-          simp only [List.mem_map] at ht
-          obtain ⟨x, hx, rfl⟩ := ht
+          simp only [List.mem_singleton] at ht
+          subst ht
+          have hx : x ∈ (w.mod m).stars := by
+            unfold starProvider at hsp
+            split at hsp
+            · cases hsp
+            · exact List.mem_of_find?_eq_some hsp
           exact ⟨hs x hx, hn⟩
+        · exact h
 
 theorem stepLocal_done (w : World) (s : State) (m l : Nat) : (stepLocal w s m l).done = s.done := by
   unfold stepLocal
